@@ -97,13 +97,16 @@ func init() {
 			ruleLifetimeWaited(c, gos, chk.PathOfVar(c.M.Server, c.M.SWg).String(), 3, "server")
 			c.Clause("C08-D4")
 			ruleStatusTable(c)
+			ruleIsErrClosingTable(c)
 			c.Clause("C08-D5")
 			ruleStopCancelsTable(c, "server", c.M.SUsed, nil, "in-flight call contexts")
 			ruleStopCancelsTable(c, "server", c.M.SCall, c.M.RCancel, "pending callbacks")
 			ruleCallbackTakeCompletes(c)
+			rulePendingTablesNeverReplaced(c, c.M.SCall)
 			c.Clause("C08-D6")
 			ruleRetainNotifications(c)
 			ruleDispatcherExit(c)
+			ruleParsedRecordNotDiscarded(c)
 		},
 	})
 }
